@@ -7,6 +7,7 @@ CONSTANTS
   StopAfterAnswer = TRUE
   ResumeAllEdges = TRUE
   StepCap = 600
+  CheckLoader = TRUE
 SPECIFICATION Spec
 CHECK_DEADLOCK FALSE
 INVARIANT Safe
